@@ -44,7 +44,7 @@ def first_diff(a, b, path=""):
     return None if a == b else (path, "value")
 
 
-def share_equal_instances(obj, attrs):
+def share_equal_instances(obj, attrs, wire=None):
     """Make the object graph a DAG: every attrs instance that equals (same class, ==) an instance met
     earlier is replaced by that earlier instance - applications build messages from shared Position /
     Range objects all the time.  -> number of replacements."""
@@ -54,16 +54,17 @@ def share_equal_instances(obj, attrs):
     def canon(v):
         if attrs.has(type(v)):
             walk(v)
-            bucket = seen.setdefault(type(v), [])
-            for o in bucket:
-                try:
-                    # (== alone is too weak: 1 == True, 3 == 3.0 - the reprs must agree too)
-                    if o is not v and o == v and repr(o) == repr(v):
-                        n[0] += 1
-                        return o
-                except Exception:
-                    pass
-            bucket.append(v)
+            # "equal" = same class and same WIRE form (== is too weak: 1 == True, 3 == 3.0, and
+            # Position.__eq__ looks at line / character only, whatever else an evolved Position carries)
+            try:
+                key = (type(v), json.dumps(wire(v), sort_keys=True)) if wire else (type(v), repr(attrs.astuple(v, recurse=True)))
+            except Exception:
+                return v
+            o = seen.get(key)
+            if o is not None and o is not v:
+                n[0] += 1
+                return o
+            seen[key] = v
             return v
         if isinstance(v, list):
             for x in range(len(v)):
@@ -149,7 +150,7 @@ def shard(i, n, args):
                 res["samples"].append({"root": root.label, "case": lab, "constructed": repr(obj)[:300], "wire": u1})
             # the same message built from SHARED sub-objects (one instance at several positions)
             try:
-                shared = share_equal_instances(obj, py.attrs)
+                shared = share_equal_instances(obj, py.attrs, wire=py.conv.unstructure)
             except Exception:
                 shared = 0
             if shared:
